@@ -505,6 +505,14 @@ def forgeries(c, rng, d, z, r, s, other_Q, other_z, which):
            ("r_plus_1", Q, z, r + 1, s),
            ("s_bitflip", Q, z, r, s ^ (1 << rng.randrange(0, 256))),
            ("z_bitflip", Q, z ^ (1 << rng.randrange(0, 256)) or 1, r, s)]
+    # the degenerate (infinity) forgery with r tied to the key itself: r = x(Q) mod n, z = -r*d  (a backend that reads the
+    # result back into the buffers holding Q would "find" x(Q) = r)
+    rq = Q[0] % n
+    zq = (-rq * d) % n
+    if rq and zq:
+        out.append(("degenerate_infinity_r_is_Qx", Q, zq, rq, s))
+        out.append(("degenerate_infinity_r_is_Qx", Q, zq, rq, rng.randrange(1, n)))
+    # ... and the doubling relation z = r*d (both terms are the same point; the signature is VALID when r = x(2*(z/s)G))
     for v in (0, n, n + r, M, -r):
         out.append(("r_out_of_range", Q, z, v, s))
     for v in (0, n, n + s, M, -s):
@@ -513,7 +521,7 @@ def forgeries(c, rng, d, z, r, s, other_Q, other_z, which):
     if which == "full":
         return out
     i = which
-    lite = [out[0], out[1 + i % 2], out[3 + i % 2], out[5 + i % 2], out[7], out[12 + i % 10], out[12 + (i + 5) % 10]]
+    lite = [out[0], out[1 + i % 2], out[3 + i % 2], out[5 + i % 2], out[7], out[12], out[14 + i % 10], out[14 + (i + 5) % 10]]
     if i % 3 == 0:
         lite.append(out[9 + (i // 3) % 3])
     return lite
@@ -599,6 +607,13 @@ def run_big(spec, rec):
             pick = fs if full and i % 4 == 0 else [fs[0], fs[(i // 3) % len(fs)], fs[7 if full else 4]]
             for (label, Qf, zf, rf, sf) in pick:
                 judge_key_verify(ctx, base_case(ctx, "key_verify", Q=list(Qf), z=zf, r=rf, s=sf, label=label))
+        # pairs that collide as Python hash values (ints hash modulo 2^61-1): anything memoised on hash((n, d, z)) or in a
+        # dict keyed by a hash value would hand the second request the first one's nonce
+        if i % 5 == 2:
+            Mh = (1 << 61) - 1
+            for d2_, z2_ in ((d, z + Mh), (d, z + 3 * Mh), (d + Mh if d + Mh < n else d - Mh, z), (d, z ^ (1 << 61))):
+                if 1 <= d2_ < n and 0 < z2_ < (1 << 256):
+                    judge_sign(ctx, base_case(ctx, "sign", d=d2_, z=z2_, label="python_hash_collision_pair"))
         # hand-built VALID signatures whose nonce point has n <= x < p (so r = x - n): Q = r^-1 (s R - z G).
         # No signer ever produces them on the production curves (probability ~2^-128), verification must still accept
         # them, and recovery need not return the signer.
